@@ -110,7 +110,7 @@ func c14Big(c *vlib.Ctx) {
 
 // C14: operator queue mutations touch exactly what they name.
 func C14(c *vlib.Ctx) {
-	c.Rule("generated populations (8-40 ids; one 1230-message population for the 1000 cap) over routes/targets/all five states with deliberate received_at ties; id lists with unknown, duplicate, blank and wrong-state ids; filters with absent/contradictory criteria, limits {0,-1,1,2,3,100,1000,1001}, cursors on tie timestamps. An independent selection (filter, order received_at desc / id desc, limit) is compared with the snapshot diff and with the reported counts; previews must change nothing and report the count of the real run. After every cancel the old lease of each canceled leased message is presented and must be refused without effect. Admin HTTP and MCP surfaces are sampled on top; every fifth Admin HTTP population holds 1800-2000 messages (well over 100 matches per route and operation) and is driven with by-filter calls whose limits are absent, 100, 101, 1000, 1001, 5000 and 2^31 (admin_filter_limit_vs_matches lists the limit-class x match-count classes seen). distinct_nontrivial = distinct (backend, operation, result class, observed transitions) tuples.")
+	c.Rule("generated populations (8-40 ids; one 1230-message population for the 1000 cap) over routes/targets/all five states with deliberate received_at ties; id lists with unknown, duplicate, blank and wrong-state ids; filters with absent/contradictory criteria, limits {0,-1,1,2,3,100,1000,1001}, cursors on tie timestamps. An independent selection (filter, order received_at desc / id desc, limit) is compared with the snapshot diff and with the reported counts; previews must change nothing and report the count of the real run. After every cancel the old lease of each canceled leased message is presented and must be refused without effect. Admin HTTP and MCP surfaces are sampled on top (MCP both on the SQLite file and, for a memory backend, through the Admin API of the production wiring on a loopback listener, with route and application/endpoint selectors, with and without preview_only); every fifth Admin HTTP population holds 1800-2000 messages (well over 100 matches per route and operation) and is driven with by-filter calls whose limits are absent, 100, 101, 1000, 1001, 5000 and 2^31 (admin_filter_limit_vs_matches lists the limit-class x match-count classes seen). distinct_nontrivial = distinct (backend, operation, result class, observed transitions) tuples.")
 	c14Store(c)
 	c14Big(c)
 	c14Admin(c)
